@@ -251,6 +251,9 @@ func (cs *crashSim) run() {
 			k := cs.trace[c].Kind
 			interesting = k == "write" || k == "sync" || k == "syncdone" || k == "open" || k == "unlink" || k == "mark" || k == "close"
 		}
+		if interesting && len(cs.trace) > 400 && c < len(cs.trace)-60 && c%25 != 0 {
+			interesting = false // long traces: every 25th crash point, and all of the last 60
+		}
 		if interesting {
 			inside := inRound && durable > 0
 			// A. process kill: everything completed is there
@@ -442,8 +445,8 @@ func RunC05(t TB, p *Program) *crashStats {
 	waitDirSettled(e.Dir, 300e6)
 	e.FS.observeDir()
 	trace := e.FS.Trace()
-	if len(trace) > 600 {
-		trace = trace[:600]
+	if len(trace) > 1500 {
+		trace = trace[:1500]
 	}
 	st := &crashStats{labels: map[string]int{}, failures: map[string]string{}}
 	cs := &crashSim{t: t, p: p, trace: trace, states: e.States, noSync: p.Cfg.NoSync, extra: x,
